@@ -233,7 +233,11 @@ Fixpoint run (P : prog) (strat : state -> option label) (fuel : nat) (s : state)
      - top frame's cell clean: for a nested frame, first the dirty cells of the same node are tried
        opportunistically in the given order, up to the first one that cannot complete; then the frame is
        popped;
-     - top frame's cell dirty: cycle if locked, otherwise evaluate (done / need). *)
+     - top frame's cell dirty: cycle if locked, otherwise evaluate (done / need).
+   (The real loop iterates `dirty_rows` while nested _recompute_step calls remove cleaned rows from the same
+   set, so it occasionally skips a row that this strategy would try; such runs are still runs of [step].
+   The theorems are about [step]; this strategy is one resolution, used for the statement about
+   permutations and compared with the recorded traces for information.) *)
 Definition first_dirty (order : list cell) (s : state) : option cell :=
   find (fun c => mem c (dirty s)) order.
 
